@@ -423,3 +423,190 @@ Proof.
     by (eexists; vm_compute; reflexivity).
   destruct H as [out H]. exact (Tie.attend_legal _ _ _ _ _ _ _ _ _ _ H).
 Qed.
+
+(* ---- SECOND tie to the source text: MultiHeadedAttention.forward / check_input, ConcatSoftAttention.score,
+   _concat_soft_attention ------------------------------------------------------------------------------------------------
+   PV.Gen.C20BSrc.{mha_forward, mha_check_input, concat_score, csa} are regenerated on every run from
+   /repo/src/pydrobert/torch/_attn.py (whole bodies).  SrcRunB.ext_mha interprets `self.check_input(..)` by running the
+   translated MultiHeadedAttention.check_input, `self.WQ(x)` .. `self.WC(x)` as F.linear with the layer's weight and
+   optional bias (data), `self.single_head_attention(..)` by running the translated GlobalSoftAttention.forward of the first
+   tie on the wrapped module (whose score method is the translated dot / general / concat body), and gives unflatten,
+   flatten(-2), mask.unsqueeze(-1), size, expand, cat, squeeze, tanh the meaning of PV.MiniTorch.OpsC20B / OpsC07; exp and
+   tanh are ORACLES.  `torch.jit.is_scripting()` is False (eager text).  A module object is the dictionary of its
+   attributes (SrcRunB.self_mha, self_single); parameters are data.  Hypotheses: the parameter SIZES are those the
+   constructors build (ModelB.mha_sizes, fl_sizes) and dim >= 0 (MultiHeadedAttention.__init__ raises ValueError for a
+   wrapped module with a negative dim). *)
+From PV Require MiniTorch.OpsC20B C20.ModelB Gen.C20BSrc C20.SrcRunB C20.TieB C20.TieBOps C20.TieBMha C20.TieBConcat.
+
+(* interpreting the source of MultiHeadedAttention.forward (wrapping a dot-product, generalised or concat attention with
+   parameters fl) returns exactly the tensor Model.mha computes: projections with the requested biases, head split,
+   mask.unsqueeze(-1), ONE call of the wrapped forward on tensors with a head axis, flatten, W^C *)
+Theorem c20_source_mha_forward_is_model :
+  forall expf tanhf fl P dim qs ks vs q k v m p out,
+  (0 <= dim)%Z ->
+  axis_pos dim (length (tshape k)) = Some p ->
+  ModelB.mha_sizes P qs ks vs = true -> fl_sizes fl (d_q P) (d_k P) = true ->
+  mha expf (score tanhf fl) P q k v m p 0 qs ks vs = Some out ->
+  exists st,
+    SrcRunB.run_mha expf tanhf (SrcRunB.cls_of fl)
+                    (SrcRunB.self_mha dim qs ks vs P (SrcRunB.self_single dim (d_q P) (d_k P) fl))
+                    (SrcRun.flat q) (SrcRun.flat k) (SrcRun.flat v) (option_map SrcRun.flat m)
+    = Interp.Ok (OpsC20.enc_q (SrcRun.flat out)) st.
+Proof. exact TieBConcat.mha_fl_tie. Qed.
+Print Assumptions c20_source_mha_forward_is_model.
+
+(* the same for ANY wrapped module object [sha] of class [cls] whose interpreted forward is Model.attend with score sc
+   (TieBMha.single_tie): the multi-headed part alone *)
+Theorem c20_source_mha_forward_any_score :
+  forall expf tanhf cls sha sc P dim qs ks vs q k v m p out,
+  TieBMha.single_tie expf tanhf cls sha sc dim (d_q P) (d_k P) ->
+  (0 <= dim)%Z ->
+  axis_pos dim (length (tshape k)) = Some p ->
+  ModelB.mha_sizes P qs ks vs = true ->
+  mha expf sc P q k v m p 0 qs ks vs = Some out ->
+  exists st,
+    SrcRunB.run_mha expf tanhf cls (SrcRunB.self_mha dim qs ks vs P sha)
+                    (SrcRun.flat q) (SrcRun.flat k) (SrcRun.flat v) (option_map SrcRun.flat m)
+    = Interp.Ok (OpsC20.enc_q (SrcRun.flat out)) st.
+Proof. exact TieBMha.mha_forward_tie. Qed.
+Print Assumptions c20_source_mha_forward_any_score.
+
+(* ... and every one of the three single-head classes has that property (dot / general: the first tie; concat: below) *)
+Theorem c20_source_single_head_every_flavour :
+  forall expf tanhf fl dim dq dk,
+  fl_sizes fl dq dk = true ->
+  TieBMha.single_tie expf tanhf (SrcRunB.cls_of fl) (SrcRunB.self_single dim dq dk fl) (score tanhf fl) dim dq dk.
+Proof. exact TieBConcat.single_tie_fl. Qed.
+Print Assumptions c20_source_single_head_every_flavour.
+
+(* COMPOSED with c20_multihead_is_composition, purely about the interpreted source: on inputs of legal SHAPES
+   (TieBConcat.legal_mha_input: Model.mha_legalb - ranks, feature sizes, the broadcasts of check_input - and a mask that
+   expands to the score shape; no reference to the model's values) the interpreted MultiHeadedAttention.forward returns a
+   tensor r, every per-head call of the wrapped attention (on that head's block of projected features, with the caller's
+   mask) is accepted, and r = W^C [head_1; ...; head_H] (+ b^C) (Spec.mha_spec) at every index *)
+Theorem c20_source_mha_is_composition :
+  forall expf tanhf fl P dim qs ks vs q k v m p,
+  (0 <= dim)%Z -> axis_pos dim (length (tshape k)) = Some p ->
+  ModelB.mha_sizes P qs ks vs = true -> fl_sizes fl (d_q P) (d_k P) = true ->
+  TieBConcat.legal_mha_input q k v m p qs ks vs -> seq_agree k v p ->
+  exists r st,
+    SrcRunB.run_mha expf tanhf (SrcRunB.cls_of fl)
+                    (SrcRunB.self_mha dim qs ks vs P (SrcRunB.self_single dim (d_q P) (d_k P) fl))
+                    (SrcRun.flat q) (SrcRun.flat k) (SrcRun.flat v) (option_map SrcRun.flat m)
+    = Interp.Ok (OpsC20.enc_q r) st /\
+    (forall h, h < num_heads P -> exists o, head expf (score tanhf fl) P q k v m p h = Some o) /\
+    forall i, valid (rev (OpsC07.shp r)) i ->
+      (tat (OpsC20.rd 0%Q r) i == tat (mha_spec expf (score tanhf fl) P q k v m p (tl (rev (OpsC07.shp r)))) i)%Q.
+Proof. exact TieBConcat.source_mha_is_composition_legal. Qed.
+Print Assumptions c20_source_mha_is_composition.
+
+(* composed with c20_multihead_blind_to_masked: two runs of the interpreted MultiHeadedAttention.forward on keys / values
+   that differ only at masked positions return the same tensor *)
+Theorem c20_source_mha_blind_to_masked :
+  forall expf tanhf cls sha sc P dim qs ks vs q k v k' v' m p out out',
+  TieBMha.single_tie expf tanhf cls sha sc dim (d_q P) (d_k P) ->
+  (0 <= dim)%Z -> axis_pos dim (length (tshape k)) = Some p ->
+  ModelB.mha_sizes P qs ks vs = true ->
+  mha expf sc P q k v m p 0 qs ks vs = Some out ->
+  mha expf sc P q k' v' m p 0 qs ks vs = Some out' ->
+  tshape k' = tshape k -> tshape v' = tshape v -> seq_agree k v p ->
+  exists r r' st st',
+    SrcRunB.run_mha expf tanhf cls (SrcRunB.self_mha dim qs ks vs P sha)
+                    (SrcRun.flat q) (SrcRun.flat k) (SrcRun.flat v) (option_map SrcRun.flat m) = Interp.Ok (OpsC20.enc_q r) st /\
+    SrcRunB.run_mha expf tanhf cls (SrcRunB.self_mha dim qs ks vs P sha)
+                    (SrcRun.flat q) (SrcRun.flat k') (SrcRun.flat v') (option_map SrcRun.flat m) = Interp.Ok (OpsC20.enc_q r') st' /\
+    forall c j, valid (rev (OpsC07.shp r)) (c :: j) ->
+      (forall t, t < nth p (tshape k) 0 -> kept_at m (ins (p - 1) t j) = true ->
+                 brow k' (ins (p - 1) t j) = brow k (ins (p - 1) t j)
+                 /\ brow v' (ins (p - 1) t j) = brow v (ins (p - 1) t j)) ->
+      (tat (OpsC20.rd 0%Q r') (c :: j) == tat (OpsC20.rd 0%Q r) (c :: j))%Q.
+Proof. exact TieBConcat.source_mha_blind_to_masked. Qed.
+Print Assumptions c20_source_mha_blind_to_masked.
+
+(* a query of the wrong rank: the translated MultiHeadedAttention.check_input raises RuntimeError out of forward *)
+Theorem c20_source_mha_rejects_rank :
+  forall expf tanhf cls dim qs ks vs P sha (q k v : tensor Q) (m : option (tensor bool)),
+  S (length (tshape q)) <> length (tshape k) ->
+  exists st,
+    SrcRunB.run_mha expf tanhf cls (SrcRunB.self_mha dim qs ks vs P sha)
+                    (SrcRun.flat q) (SrcRun.flat k) (SrcRun.flat v) (option_map SrcRun.flat m)
+    = Interp.Exc SrcRun.runtime_error st.
+Proof. exact TieBConcat.mha_forward_rejects_rank. Qed.
+Print Assumptions c20_source_mha_rejects_rank.
+
+(* ConcatSoftAttention.score -> _concat_soft_attention (unsqueeze, broadcast_shapes, two expands, cat, linear, tanh,
+   linear with v.unsqueeze(0), squeeze(-1)), interpreted, returns the model's score tensor
+   e[i] = sum_c v_c tanh(W_c . [query_i ; key_i] + b_c) - weight rows of length query_size + key_size, tanh an oracle *)
+Theorem c20_source_concat_score_is_model :
+  forall expf tanhf W b vv dim qs ks q k v m p es ps,
+  axis_pos dim (length (tshape k)) = Some p -> attend_facts q k v m p es ps ->
+  hd 0 (tshape q) = qs -> hd 0 (tshape k) = ks -> fl_sizes (Concat W b vv) qs ks = true ->
+  exists st,
+    Interp.run (SrcRunB.ext_fn expf tanhf) C20BSrc.concat_score
+               (Tie.score_vars (SrcRunB.self_concat dim qs ks W b vv) (SrcRun.flat q) (SrcRun.flat k))
+    = Interp.Ok (OpsC20.enc_q (OpsC20.mat (mkT es (e_at (score tanhf (Concat W b vv)) q k p)))) st.
+Proof. exact TieBConcat.concat_score_tie. Qed.
+Print Assumptions c20_source_concat_score_is_model.
+
+(* the forward pass of a ConcatSoftAttention (GlobalSoftAttention.forward with that score method) = Model.attend *)
+Theorem c20_source_concat_forward_is_model :
+  forall expf tanhf W b vv dim qs ks q k v m p out,
+  axis_pos dim (length (tshape k)) = Some p ->
+  fl_sizes (Concat W b vv) qs ks = true ->
+  attend expf (score tanhf (Concat W b vv)) q k v m p qs ks = Some out ->
+  exists st,
+    SrcRunB.run_single expf tanhf SrcRunB.ConcatB (SrcRunB.self_concat dim qs ks W b vv)
+                       (SrcRun.flat q) (SrcRun.flat k) (SrcRun.flat v) (option_map SrcRun.flat m)
+    = Interp.Ok (OpsC20.enc_q (SrcRun.flat out)) st.
+Proof. exact TieBConcat.forward_concat_tie. Qed.
+Print Assumptions c20_source_concat_forward_is_model.
+
+(* composed with c20_attention_in_kept_range, purely about the interpreted source (legal shapes, positive exp, ANY tanh) *)
+Theorem c20_source_concat_in_kept_range :
+  forall expf tanhf W b vv dim qs ks q k v m p,
+  (forall x, (0 < expf x)%Q) ->
+  axis_pos dim (length (tshape k)) = Some p -> fl_sizes (Concat W b vv) qs ks = true ->
+  Tie.legal_input q k v m p qs ks -> seq_agree k v p ->
+  exists r st,
+    SrcRunB.run_single expf tanhf SrcRunB.ConcatB (SrcRunB.self_concat dim qs ks W b vv)
+                       (SrcRun.flat q) (SrcRun.flat k) (SrcRun.flat v) (option_map SrcRun.flat m)
+    = Interp.Ok (OpsC20.enc_q r) st /\
+    forall c j lo hi, valid (rev (OpsC07.shp r)) (c :: j) ->
+      (exists t, t < nth p (tshape k) 0 /\ kept_at m (ins (p - 1) t j) = true) ->
+      (forall t, t < nth p (tshape k) 0 -> kept_at m (ins (p - 1) t j) = true ->
+                 (lo <= bget v (c :: ins (p - 1) t j) <= hi)%Q) ->
+      (lo <= tat (OpsC20.rd 0%Q r) (c :: j) <= hi)%Q.
+Proof. exact TieBConcat.source_concat_in_kept_range. Qed.
+Print Assumptions c20_source_concat_in_kept_range.
+
+(* non-vacuity: the interpreted sources on the concrete input of c20_mha_nonvacuous (2 heads, bias on W^Q only, masked) with
+   a dot-product and with a concat wrapped attention, a single-head concat attention on the same data, a query of the wrong
+   rank (RuntimeError), and the shape legality of the input *)
+Example c20_sourceB_nonvacuous :
+  let expf := fun x : Q => (x * x + 1)%Q in
+  let tanhf := fun x : Q => (x / (1 + x * x))%Q in
+  let P := mkMHA 2 1 1 1 [[1; 0]; [0; 1]]%Q (Some [1; 0]%Q) [[1; 0]; [0; 1]]%Q None
+                 [[1; 0]; [0; 1]]%Q None [[1; 0]; [0; 1]]%Q None in
+  let cfl := Concat [[1; 0]; [0; 1]; [1; 1]]%Q (Some [1; 0; 1]%Q) [1; 2; 3]%Q in
+  let cfl2 := Concat [[1; 0; 1; 1]; [0; 1; 0; 1]; [1; 1; 2; 0]]%Q None [1; 2; 3]%Q in
+  let q0 := qt [2; 2] [1; -2; 0; 1]%Q in
+  let k0 := qt [2; 2; 3] [1; 0; 2; 1; -1; 3; 0; 0; 1; 1; 2; 2]%Q in
+  let v0 := qt [2; 2; 3] [1; 2; 3; 4; 5; 6; 7; 8; 9; 10; 11; 12]%Q in
+  let m0 := Some (bt [2; 3] [true; false; true; true; false; true]) in
+  SrcRunB.src_mha expf tanhf (Dot 1) P 2 2 2 0%Z q0 k0 v0 m0
+  = option_map (fun o => Some (SrcRun.flat o)) (mha expf (score tanhf (Dot 1)) P q0 k0 v0 m0 2 0 2 2 2)
+  /\ SrcRunB.src_mha expf tanhf (Dot 1) P 2 2 2 0%Z q0 k0 v0 m0
+     = Some (Some (OpsC07.mkTn [2; 2] [75 # 25; 53200 # 9025; 279 # 27; 8262 # 729]%Q))
+  /\ SrcRunB.src_mha expf tanhf cfl P 2 2 2 0%Z q0 k0 v0 m0
+     = option_map (fun o => Some (SrcRun.flat o)) (mha expf (score tanhf cfl) P q0 k0 v0 m0 2 0 2 2 2)
+  /\ SrcRunB.src_single expf tanhf cfl2 2 2 0%Z q0 k0 v0 m0
+     = option_map (fun o => Some (SrcRun.flat o)) (attend expf (score tanhf cfl2) q0 k0 v0 m0 2 2 2)
+  /\ SrcRunB.src_mha expf tanhf (Dot 1) P 2 2 2 0%Z k0 k0 v0 m0 = Some None
+  /\ ModelB.mha_sizes P 2 2 2 = true
+  /\ TieBConcat.legal_mha_input q0 k0 v0 m0 2 2 2 2.
+Proof.
+  cbv zeta. split; [vm_compute; reflexivity|]. split; [vm_compute; reflexivity|]. split; [vm_compute; reflexivity|].
+  split; [vm_compute; reflexivity|]. split; [vm_compute; reflexivity|]. split; [reflexivity|].
+  split; [vm_compute; reflexivity|].
+  intros es H. vm_compute in H. injection H as <-. reflexivity.
+Qed.
